@@ -373,7 +373,8 @@ PROPS = {
               'equals the literal, the Unsigned- / SignedInclusiveRange arms exactly when min <= value <= max (signed or unsigned comparison as the type '
               'demands); the Tuple arm (structural induction: the field patterns are lowered by opaque recursive calls whose contract is the induction '
               'hypothesis) returns a wire that is true exactly when every field pattern matches its slice of the value, field k occupying the wires '
-              'from the sum of the sizes of the fields before it. (4) first match: the Match arm of TypedExpr::compile (unit branches; clause patterns and bodies compiled by opaque recursive '
+              'from the sum of the sizes of the fields before it; the tag comparison of the EnumUnit / EnumTuple arm (lifted between the computation of the '
+              'expected tag wires and the field patterns) is true exactly when the first tag_size wires carry the variant number. (4) first match: the Match arm of TypedExpr::compile (unit branches; clause patterns and bodies compiled by opaque recursive '
               'calls) returns, for every input, the result wires of the first clause whose match wire is true. (5) structured constructors: the True / False, '
               'Tuple, Struct, Variant and Array arms of specialize are contracted structurally - a variable head becomes one wildcard per field type, a '
               'pattern of the same constructor (same struct / variant name) is replaced by its sub-patterns, in both cases followed by the rest of the '
@@ -393,6 +394,6 @@ PROPS = {
               'literal and range patterns exact, specialization by structured constructors, first matching clause decides (proved); usefulness recursion and lowering of structured patterns by bounded differential',
         unverified=['usefulness, split_ctor (the recursion over pattern stacks that composes splitting and specialization): bounded differential only',
                     'Pattern::type_check (that every integer pattern is passed to expect_pattern_in_range), range pattern parsing',
-                    'struct / enum arms of TypedPattern::compile (HashMap of field patterns; enum tag comparison), bindings of the selected arm (environment merge mux_envs): bounded differential only'],
+                    'struct arm and the field part of the enum arm of TypedPattern::compile (HashMap of field patterns; zip over the variant types), bindings of the selected arm (environment merge mux_envs): bounded differential only'],
     ),
 }
